@@ -119,6 +119,27 @@ static void add_all() {
         s.destroy = [](void* c) { delete (Two*)c; };
         reg().list.push_back(s);
     }
+    // the same for every (source kind, target kind) pair: each pair is its own branch of basic_json::copy_assignment
+    for (auto& sk : targets()) for (auto& tg : targets()) {
+        if (sk.first == "null") continue;
+        auto mks = sk.second; auto mk = tg.second;
+        for (int flavour = 0; flavour < 2; ++flavour) {     // 0: copy assignment, 1: assignment through the allocator-aware copy + move
+            Scenario s; s.name = std::string(flavour ? "copy-move-assign-" : "copy-assign-") + sk.first + "-over-" + tg.first;
+            s.make = [mks, mk] { Two* t = new Two; t->doc = mks(); t->c = mk(); t->doc.dump(t->doc_text); return box(t); };
+            if (flavour == 0) s.run = [](void* c) { Two* t = (Two*)c; t->c = t->doc; };
+            else s.run = [](void* c) { Two* t = (Two*)c; json tmp(t->doc); t->c = std::move(tmp); };
+            s.check = [](void* c, bool threw) {
+                Two* t = (Two*)c;
+                std::string r = validate(t->c, true); if (!r.empty()) return "assignment target: " + r;
+                r = validate(t->doc, true); if (!r.empty()) return "assignment source: " + r;
+                std::string d; t->doc.dump(d); if (d != t->doc_text) return std::string("the source of the assignment changed");
+                if (!threw) { std::string e; t->c.dump(e); if (e != t->doc_text) return std::string("assignment completed but the target differs from the source"); }
+                return std::string();
+            };
+            s.destroy = [](void* c) { delete (Two*)c; };
+            reg().list.push_back(s);
+        }
+    }
     // element insertion forcing reallocation
     {
         Scenario s; s.name = "array-push_back-realloc";
